@@ -477,8 +477,11 @@ def run(ctx):
         case = gridcases.gen_case(r, max_cells=6, max_mag=3, max_events=4, zero_frac=0.0, events_in_zero=False)
         shp = numpy.array(case["rates"]).shape
         case["rates"] = r.choice([0.3, 0.6, 0.9, 0.2, 0.1, 0.7], shp).tolist()
+        if j % 2:
+            # rates equal up to a relative 1e-8 / 1e-10: scores of catalogs that differ in one such cell are ~1e-8 apart - close, not tied
+            case["rates"] = (numpy.array(case["rates"]) * (1.0 + r.choice([0.0, 1e-8, -1e-8, 1e-10], shp))).tolist()
         case["history"], case["layout"] = None, None
-        for t in ("CL", "L", "S", "M"):
+        for t in ("CL", "L", "S", "M") + tuple(BTESTS):
             ex_case(ctx, case, t, num_sim=int(r.choice([40, 80])), source="seed", seed=int(r.integers(0, 1000)))
         ctx.add("near_tie_cases")
     # primitives with boundary draws on long arrays (float cumsum[-1]/sum below 1 is common beyond 8 elements)
